@@ -77,6 +77,9 @@ def geometry(name, nc):
     elif name == 'grid':       # 2 columns, rows 25 apart, columns 16 apart: no ties at the cut-off
         pos = np.array([[16. * (i % 2), 25. * (i // 2) + 3. * (i % 2)] for i in range(nc)])
         shanks = np.zeros(nc, dtype=np.int32)
+    elif name == 'rect':       # a rectangular 2-column layout: sites share x and y values (distinct rows)
+        pos = np.array([[16. * (i % 2), 20. * (i // 2)] for i in range(nc)])
+        shanks = np.zeros(nc, dtype=np.int32)
     elif name == 'twoshank':   # two shanks of nc//2 (+ remainder on the first)
         h = (nc + 1) // 2
         pos = np.array([[0. if i < h else 200., 12. * (i if i < h else i - h) + (0 if i < h else 5)]
